@@ -45,7 +45,19 @@ class BoomRuntime(RuntimeError):
     pass
 
 
-EXC_KINDS = ["Boom", "BoomValue", "BoomKey", "BoomRuntime", "BoomValue-empty", "Assertion-empty", "Boom"]
+class BoomFalsy(Exception):
+    """An exception object that is falsy (a collection-like error with __len__ == 0 / __bool__ False)."""
+
+    def __bool__(self):
+        return False
+
+
+class BoomEmptyLen(Exception):
+    def __len__(self):
+        return 0
+
+
+EXC_KINDS = ["Boom", "BoomValue", "BoomKey", "BoomRuntime", "BoomValue-empty", "Assertion-empty", "Boom", "BoomFalsy", "BoomEmptyLen"]
 
 
 def make_exc(kind, msg):
@@ -60,6 +72,10 @@ def make_exc(kind, msg):
         return BoomValue()
     if kind == "Assertion-empty":
         return AssertionError()
+    if kind == "BoomFalsy":
+        return BoomFalsy(msg)
+    if kind == "BoomEmptyLen":
+        return BoomEmptyLen(msg)
     return Boom(msg)
 
 
